@@ -438,8 +438,8 @@ def judge_c06(ops, lines):
         elif kind == "rmi":
             idx = int(w[1])
             at = {ix: ck for ck, (ix, _) in before.items()}
-            if idx < 0:
-                want = "false EINVAL"
+            if idx < 0 or idx >= ideal.cap:
+                want = "false EINVAL"          # outside the table: rejected, nothing touched
             elif idx in at:
                 want = "ok"
                 if at[idx] not in m:
@@ -594,7 +594,7 @@ def scenario_streams(rng, tier):
                 ops.append(op_put(ks[0], mkval(rng, ln)))
                 ops.append(op_put(ks[-1], mkval(rng, ln)))
         # remove-by-index of every slot, twice (free / stale slots answer ENOENT)
-        for i in list(range(cap)) + [-1]:
+        for i in list(range(cap)) + [-1, cap, cap + 1, 2147483647, -2147483648]:
             ops.append("rmi %d" % i)
         ops.append("size")
         # refill with multi-slot values
@@ -689,7 +689,8 @@ def random_history(rng, cap, nops, keys, val_lens, p_put=0.5):
         elif r < p_put + 0.27:
             ops.append(op_get(k))
         elif r < p_put + 0.37:
-            ops.append("rmi %d" % rng.randrange(-1, cap))
+            ops.append("rmi %d" % (rng.randrange(-1, cap) if rng.random() < 0.85 else
+                                   rng.choice([cap, cap + 1, 2147483647, -1, -2147483648, cap + rng.randrange(2, 50)])))
         elif r < p_put + 0.40:
             ops.append("walkrm %d %d" % (rng.choice([1, 2, 3]), 0))
         elif r < p_put + 0.42:
